@@ -1,6 +1,6 @@
 """Property -> what decides it (units under contract, extra obligation groups, covers, bounded native oracle)."""
 from __future__ import annotations
-from . import native_ode, native_net, native_renorm, native_cfg, native_ids, native_closure, rates, templates, conservation, c19, renorm
+from . import native_ode, native_net, native_renorm, native_cfg, native_ids, native_closure, native_krome, rates, templates, conservation, c19, renorm
 
 ODE_UNIT = ("contracts.ode", "prepare_ode_content")
 
@@ -112,6 +112,12 @@ PROPERTIES = {
         "units": [],
         "oracle": native_closure.oracle,
         "explanation": "bounded over input combinations, complete per rendering: for every (format or mixture, grain model, back end) combination of a stated list the sources are rendered by the real TemplateLoader and a name-resolution analysis of the emitted EvalRates*/Fex/Jac/InitRenorm/RenormAbundance bodies checks that every identifier is a local declared earlier exactly once, a NaunetData member, an extern constant that is also defined, a macro, a physics helper, a parameter or a <math.h> function. The per-class registry contract of DESIGN section 5 (C10) is not implemented; g++ is not run (no SUNDIALS/Boost). Nothing is counted as proved.",
+    },
+    "C12": {
+        "level": "other",
+        "units": [],
+        "oracle": native_krome.oracle,
+        "explanation": "bounded stand-in only. The deciding facts (precedence, associativity, what is accepted) live in the Lark Earley parser, an external dependency with no contract that can be checked deductively, and the pre-pass is regex rewriting; per-production contracts on the transformer lambdas would be vacuous without them (DESIGN section 7). 150 (quick) / 2000 (thorough) expressions derived from the translator's own grammar to depth 3 plus directed cases are translated by the real KROMEReaction.rateexpr and compared exactly with an independent Fortran-semantics evaluation. Nothing is counted as proved.",
     },
     "C20": {
         "level": "other",
